@@ -4,7 +4,7 @@
 // stdin : {"jobs":[{id, kind:"script"|"esm"|"cjs", files:{path:code}, entries:[path],
 //                   globals:[free names], wnames:[names]|null, probes:[names], globalName:""}]}
 // stdout: {"results":[{id, imm:{ref:value}, def:{ref:value}, exports:{entry:{name:value}},
-//                      probes:{name:value}, error:""}]}
+//                      probes:{name:value}, sites:{site:key}, error:""}]}
 //
 // Program conventions: __L(id, v, f) logs the value v a reference sees at once
 // and registers f to read it again when the program has finished (all
@@ -48,6 +48,18 @@ const HELPERS = `
     LOG.pending = []
     return JSON.stringify({ imm: LOG.imm, def: LOG.def })
   }
+  // property sites (mangled properties): the key a site actually uses
+  const SITES = {}
+  global.__P = function (i) {
+    return new Proxy({}, {
+      get (t, k) { if (typeof k === 'string') SITES[i] = k; return function () {} },
+      set (t, k, v) { if (typeof k === 'string') SITES[i] = k; return true },
+      has (t, k) { if (typeof k === 'string') SITES[i] = k; return true }
+    })
+  }
+  global.__K = function (i, o) { SITES[i] = Object.keys(o).join(','); return o }
+  global.__STR = function (s) { return String(s) }
+  global.__SITES = function () { return JSON.stringify(SITES) }
   global.__CANON = function (f) { try { return canon(f()) } catch (e) { return '!' + (e && e.name) } }
 })`
 
@@ -107,6 +119,7 @@ async function runJob(job) {
     const logs = JSON.parse(vm.runInContext('__END()', ctx))
     out.imm = logs.imm
     out.def = logs.def
+    out.sites = JSON.parse(vm.runInContext('__SITES()', ctx))
     for (const n of job.probes || []) {
       out.probes[n] = vm.runInContext('__CANON(() => ' + n + ')', ctx)
     }
